@@ -248,6 +248,7 @@ def run_po_task(prop, po_index, shape, tier, seed, prefixes=None, split_s=None):
         rec["feas_calls"] = STATS.feas_calls
         rec["vc_calls"] = STATS.vc_calls
         rec["unknown_feas"] = STATS.unknown_feas
+        rec["cross"] = dict(STATS.cross)
         rec["covers"] = ex_covers(ex, po, shape)
         # native sampling of the same contract text on the real code (sanity net, DESIGN §8.2)
         ns = cfg.get("native_samples", {"quick": 20, "thorough": 200}).get(tier, 20)
@@ -371,6 +372,8 @@ def load_known():
 
 def check_property(prop, tier, seed, jobs=None, only=None):
     t0 = time.time()
+    if tier == "thorough" and "PYVC_CROSSCHECK" not in os.environ:
+        os.environ["PYVC_CROSSCHECK"] = "1"       # thorough tier: linear obligations are re-decided by cvc5 (inherited by the workers)
     if only is None:     # replay files belong to the run that wrote them
         import shutil
         shutil.rmtree(os.path.join(OUT, "replays", prop), ignore_errors=True)
@@ -449,6 +452,10 @@ def merge_parts(parts):
             a["covers"][lab] = a["covers"].get(lab, False) or ok
         for f in ("paths", "infeasible", "solver_s", "feas_calls", "vc_calls", "unknown_feas"):
             a[f] = a.get(f, 0) + r.get(f, 0)
+        if r.get("cross"):
+            a.setdefault("cross", {})
+            for k, v in r["cross"].items():
+                a["cross"][k] = a["cross"].get(k, 0) + v
         a["wall_s"] = max(a["wall_s"], r["wall_s"])
     return [out[k] for k in order]
 
@@ -466,6 +473,7 @@ def summarise(prop, tier, seed, results, wall, only=None):
     assumptions = {}
     solver_s = 0.0
     per_po = []
+    cross = {"checked": 0, "agree": 0, "disagree": 0, "unknown": 0, "error": 0, "seconds": 0.0}
     native_ran = 0
     native_fail = []
     for r in results:
@@ -473,6 +481,8 @@ def summarise(prop, tier, seed, results, wall, only=None):
             crashes.append(f"{r.get('po')}: {r['error'][-600:]}")
             continue
         solver_s += r.get("solver_s", 0)
+        for k, v in (r.get("cross") or {}).items():
+            cross[k] = cross.get(k, 0) + v
         for f in r["functions"]:
             funcs[(f["file"], f["qualname"])] = f
         for k, v in r["assumptions"].items():
@@ -565,7 +575,8 @@ def summarise(prop, tier, seed, results, wall, only=None):
             "obligations": n_obl, "discharged": n_dis,
             "discharged_shape_bounded": n_shape, "discharged_bounded_standin": n_bounded,
             "checker_cmd": f"./vf check {prop} --tier {tier}",
-            "back_end": "z3 %s (python API), rlimit-bounded" % _z3v(),
+            "back_end": "z3 %s (python API), rlimit-bounded" % _z3v() + ("; linear obligations re-decided by /usr/bin/cvc5 1.0.3" if cross["checked"] else ""),
+            "second_solver_crosscheck": {k: (round(v, 1) if isinstance(v, float) else v) for k, v in cross.items()},
             "solver_s": round(solver_s, 2),
             "explanation": reg.get("explanation", ""),
             "evaluations": n_obl + native_ran,
